@@ -58,6 +58,9 @@ type KdcScenario struct {
 	Method   string
 	NoLength bool
 	Declared int64 // declared content length (-2: actual)
+	// FirstRealm != "": an earlier well-formed request with that realm form is served in the same execution
+	// before the observed one (every KDC refuses it): the observed request starts from a non-initial state
+	FirstRealm string
 }
 
 type kdcConn struct {
@@ -95,22 +98,25 @@ func kdcReply(idx int, proto string) []byte {
 	return append(b, body...)
 }
 
+func kdcBody(msg []byte, realm string) []byte {
+	switch realm {
+	case "absent":
+		return der.KdcProxyMessage(msg, "", false, 0, false)
+	case "default":
+		return der.KdcProxyMessage(msg, "EXAMPLE.COM", true, 0, false)
+	case "second":
+		return der.KdcProxyMessage(msg, "SECOND.ORG", true, 1, true)
+	}
+	return der.KdcProxyMessage(msg, "NOWHERE.INVALID", true, 0, false)
+}
+
 func RunKdc(sc KdcScenario, prefix []int, logOn bool) *KdcResult {
 	res := &KdcResult{}
 	proxy := kdcProxyFor(sc.NKdc)
 	body := sc.RawBody
 	if body == nil {
 		res.Request = kdcMessage(sc.Size)
-		switch sc.Realm {
-		case "absent":
-			body = der.KdcProxyMessage(res.Request, "", false, 0, false)
-		case "default":
-			body = der.KdcProxyMessage(res.Request, "EXAMPLE.COM", true, 0, false)
-		case "second":
-			body = der.KdcProxyMessage(res.Request, "SECOND.ORG", true, 1, true)
-		default:
-			body = der.KdcProxyMessage(res.Request, "NOWHERE.INVALID", true, 0, false)
-		}
+		body = kdcBody(res.Request, sc.Realm)
 	}
 	nUDP, nTCP := 0, 0
 	x := vsched.Run(prefix, 20000, logOn, nil, func() {
@@ -211,6 +217,13 @@ func RunKdc(sc KdcScenario, prefix []int, logOn bool) *KdcResult {
 				}
 			})
 			return gwEnd, nil
+		}
+		if sc.FirstRealm != "" {
+			n0 := &vnet.Net{}
+			n0.OnDial = func(network, address string) (net.Conn, error) { return nil, nil }
+			vnet.Install(n0)
+			r0 := httptest.NewRequest("POST", "http://gw.example/KdcProxy", bytes.NewReader(kdcBody(kdcMessage(33), sc.FirstRealm)))
+			proxy.Handler(httptest.NewRecorder(), r0)
 		}
 		vnet.Install(n)
 		method := sc.Method
@@ -378,7 +391,7 @@ func c20Scenarios(thorough bool) []KdcScenario {
 func c20(env *Env, rep *Report) {
 	scs := c20Scenarios(env.thorough())
 	rep.Rule = fmt.Sprintf("%d request scenarios against the real kdcproxy handler with scripted KDC connections: 1 KDC: realms {default, absent, second, unknown} x Kerberos payload sizes {0,1,3,4,5,100,1500,65535,128KiB-32} x UDP behaviour {reply, silent, refuse} x TCP behaviour {reply then close, reply and keep open, reply in two writes, half a reply then close, close at once, silent, refuse}; 2 and 3 KDCs: every combination of those behaviours (quick: 3 KDCs without two-writes/close-at-once). "+
-		"Each runs under the default schedule with deadlines firing at quiescence; selected scenarios additionally under every schedule of handler, reply readers and KDC threads up to the preemption bound. Oracle: KDCs of the right realm receive exactly the embedded message (TCP with, UDP without the 4-byte prefix); if any connection delivers a complete reply the response is 200 and its kerb-message is exactly one KDC's reply (length-prefixed); otherwise an error status; always an HTTP response and no goroutine left. Malformed requests are part of C10(d). Binding: the real rdpgw binary with a kerberos configuration and scripted KDCs on loopback TCP/UDP sockets (realms whose KDC replies over TCP, over UDP, stays silent, refuses TCP, truncates its reply; unknown realm; other methods; malformed bodies): every request gets an HTTP response with the status and bytes above. distinct_nontrivial = distinct scenarios.", len(scs))
+		"Each runs under the default schedule with deadlines firing at quiescence; selected scenarios additionally under every schedule of handler, reply readers and KDC threads up to the preemption bound. Oracle: KDCs of the right realm receive exactly the embedded message (TCP with, UDP without the 4-byte prefix); if any connection delivers a complete reply the response is 200 and its kerb-message is exactly one KDC's reply (length-prefixed); otherwise an error status; always an HTTP response and no goroutine left. Histories: 32 ordered pairs of requests in one process (first: each realm form, answered or not; second: each realm form), the second judged like a first request. Malformed requests are part of C10(d). Binding: the real rdpgw binary with a kerberos configuration and scripted KDCs on loopback TCP/UDP sockets (realms whose KDC replies over TCP, over UDP, stays silent, refuses TCP, truncates its reply; unknown realm; other methods; malformed bodies): every request gets an HTTP response with the status and bytes above. distinct_nontrivial = distinct scenarios.", len(scs))
 	rep.Assumptions = append(rep.Assumptions,
 		"KDC order is randomised by gokrb5 (math/rand) and by map iteration: behaviours are assigned to connections in dial order, so the execution structure does not depend on it",
 		"a deadline fires only at quiescence, earliest first", "UDP peers going away are not observable (no EOF on datagram sockets)",
@@ -461,6 +474,29 @@ func c20(env *Env, rep *Report) {
 			for _, sig := range ex.FoundOrder {
 				f := ex.Found[sig]
 				rep.violate(f.Sig, f.Detail, map[string]any{"engine": "vsched", "scenario": sc.Name, "choices": f.Choices})
+			}
+		}
+	}
+	// histories: two requests one after the other in the same execution; whatever the first one was (realm
+	// named or not), the second is judged exactly like a first request
+	if env.Shard == 0 || env.NShards == 1 {
+		realms := []string{"default", "absent", "second", "unknown"}
+		for _, r1 := range realms {
+			for _, r2 := range realms {
+				for _, tcp := range []string{"reply-close", "silent"} {
+					second := KdcScenario{NKdc: 1, Realm: r2, Size: 100, UDP: []string{"silent"}, TCP: []string{tcp}, FirstRealm: r1}
+					second.Name = fmt.Sprintf("history/first-realm=%s/then-realm=%s/tcp=%s", r1, r2, tcp)
+					distinct++
+					res := RunKdc(second, nil, false)
+					o, v := kdcCheck(second, res)
+					rep.add("executions", 1)
+					rep.add("transitions", int64(res.X.Steps))
+					res.X.Finish()
+					rep.outcome("history realm=" + r2 + " " + o)
+					for _, x := range v {
+						rep.violate(x.Sig+"/after-an-earlier-request", x.Detail, map[string]any{"noreplay": true})
+					}
+				}
 			}
 		}
 	}
